@@ -61,6 +61,16 @@ def genC07 (tier : Tier) (seed : Nat) (o : Out) : IO Unit := do
     for w in [kWDep, kWLink, kWDoc] do
       emit (c07Scenario "warn+err" ⟨[w, e], false⟩ 1 false [] outVariants.head!)
       emit (c07Scenario "warn+err" ⟨[e, kClean, w], false⟩ 1 false [] outVariants.head!)
+  -- more than a hundred warnings recorded before the phase that finds the error (or before a generator fails): no
+  -- diagnostic may be dropped, the error still blocks the generators and decides the exit status
+  for many in [kWDepMany, kWDocMany] do
+    for e in errKinds do
+      emit (c07Scenario "volume+err" ⟨[many, e], false⟩ 1 false [] outVariants.head!)
+      emit (c07Scenario "volume+err" ⟨[e, many], false⟩ 2 false ["All"] outVariants.head!)
+    for allow in [[], ["All"], ["Deprecated"]] do
+      emit (c07Scenario "volume" ⟨[many, kClean], false⟩ 2 false allow outVariants.head!)
+      for bad in ([.x 1 [] [], .missing] : List BehSpec) do
+        emit (c07Scenario "volume+genfail" ⟨[many], false⟩ 0 false allow outVariants.head! (some [c07Gen 0, ⟨"bad", [], bad⟩]))
   -- warnings only × -A lists × output directory × --dry-run
   for w in [[kWDep], [kWLink], [kWDoc], [kWAllow], [kWDep, kWLink, kWDoc]] do
     for allow in allowVariants do
